@@ -52,7 +52,7 @@ theorem C10_make_incompressible_spectrum_is_leray_nyquist_free (D N : ℕ) (hD :
       (Transform.rfftnM D N (field.getD d #[])).getD h 0 = 0)
     (d : ℕ) (hd : d < D) (h : ℕ) (hh : h < Layout.numModes D N) :
     (Transform.rfftnM D N ((Gen.SpectralOps.make_incompressible D N D "ij" field).getD d #[])).getD h 0
-      = Nonlin.at2 (Nonlin.leray (NonlinFunsEq.cfg D N 1) (specOf D N field)) d h := by
+      = Nonlin.at2 (Nonlin.leray (SpectralOpsEq.cfg D N 1) (specOf D N field)) d h := by
   have hf' : 2 ≤ (swapCh field).size := by rw [swapCh_size]; exact hf
   rw [make_incompressible_ij_of_xy D N hD hN field hf,
     swapCh_getD _ (by rw [make_incompressible_size]; exact hD),
